@@ -20,7 +20,7 @@ inductive Variant | pinned | fixed
 deriving DecidableEq, Repr
 
 /-- Which behaviour the tree under check is expected to have. Flip to `.fixed` when the fix is applied. -/
-def active : Variant := .pinned
+def active : Variant := .fixed
 
 abbrev Name := List Char
 abbrev Value := List Char
